@@ -488,10 +488,10 @@ class BaseProvider:
         Returns:
           List of instances in repository that represent classname
         """
-        classnames = NocaseList(classname)
+        classnames = NocaseList([classname])
         instance_store = self.cimrepository.get_instance_store(namespace)
 
-        insts = [self._get_bare_instance(inst.path, instance_store)
+        insts = [self._get_bare_instance(inst.path, instance_store, copy=True)
                  for inst in instance_store.iter_values()
                  if inst.path.classname in classnames]
         return insts
